@@ -157,7 +157,7 @@ Fixpoint populate (xs ys : list Z) (seen : PositiveSet.t) : option (list bool) :
   | _, _ => Some []
   end.
 
-Inductive error := ErrValue | ErrIndex | ErrNegative.
+Inductive error := ErrValue | ErrIndex | ErrNegative | ErrOverflow.
 
 Inductive result :=
 | Ok (asd bsd : list fval) (keep : list bool)
@@ -261,12 +261,40 @@ Section Model.
         end
     end.
 
+  (* ---- the request as the callers pass it ------------------------------- *)
+  (* `cdef uint32 samples_int = np.uint32(samples)`: a Python int outside
+     0..2^32-1 raises OverflowError (numpy 2), a numpy integer scalar
+     ([np_scalar] = true) wraps modulo 2^32. The functions above are the
+     bodies after this conversion. *)
+  Definition to_uint32 (np_scalar : bool) (samples : Z) : option Z :=
+    if np_scalar then Some (samples mod 4294967296)
+    else if (0 <=? samples) && (samples <? 4294967296) then Some samples
+    else None.
+
+  (* downsample_rand: set_state comes before the conversion *)
+  Definition downsample_rand_req (g : rng) (np_scalar : bool) (a : list fval)
+             (samples : Z) (remove_invalid : bool) : result * rng :=
+    match to_uint32 np_scalar samples with
+    | Some s => downsample_rand g a s remove_invalid
+    | None => (Err ErrOverflow, seed47)
+    end.
+
+  Definition downsample_grid_req (g : rng) (np_scalar : bool) (a b : list fval)
+             (samples : Z) (remove_invalid : bool) : result * rng :=
+    match to_uint32 np_scalar samples with
+    | Some s => downsample_grid g a b s remove_invalid
+    | None => (Err ErrOverflow, g)
+    end.
+
   (* ---- Filter.update, step 4: combine and apply "limit events" ---------- *)
+  (* fixed code (C16-cap-request): limit = min(limit events, sub.size); the
+     configuration holds a Python int *)
   Definition limit_events (g : rng) (arr_all : list bool) (limit : Z)
     : (list bool + error) * rng :=
     if limit >? 0 then
       let sub := select arr_all arr_all in
-      match downsample_rand g (map (fun _ => Fin 1) sub) limit false with
+      let limit' := Z.min limit (zlen sub) in
+      match downsample_rand_req g false (map (fun _ => Fin 1) sub) limit' false with
       | (Ok _ _ idx, g') =>
           let sub' := map2 andb sub idx in          (* sub[~idx] = False *)
           (inl (scatter arr_all sub' arr_all), g')  (* arr_all[arr_all] = sub *)
@@ -282,19 +310,26 @@ Section Model.
     else (inl (ones box), g).
 
   (* ---- RTDCBase.get_downsampled_scatter(..., ret_mask=True) ------------- *)
-  (* xf yf: the two features (all events); xsf ysf: their scaled copies
-     (_apply_scale is elementwise, so it commutes with the selection by
-     filter.all; for the linear scale xsf = xf); fall: filter.all *)
-  Definition scatter_ds (g : rng) (xf yf xsf ysf : list fval)
+  (* xf yf: the two features (all events) as float64; xlf ylf: their
+     logarithms (oracle, elementwise, so it commutes with the selection by
+     filter.all); _apply_scale: the feature itself for the linear scale, its
+     logarithm for "log"; fall: filter.all.
+     fixed code (C16-cap-request): downsample = min(int(downsample),
+     filter.all.sum()), a Python int *)
+  Definition apply_scale (log : bool) (f lf : list fval) : list fval :=
+    if log then lf else f.
+
+  Definition scatter_ds (g : rng) (xf yf xlf ylf : list fval) (xlog ylog : bool)
              (fall : list bool) (downsample : Z) (remove_invalid : bool)
     : result * rng :=
     if downsample <? 0 then (Err ErrNegative, g)
     else
+      let ds := Z.min downsample (count_true fall) in
       let x := select fall xf in
       let y := select fall yf in
-      let xs := select fall xsf in
-      let ys := select fall ysf in
-      match downsample_grid g xs ys downsample remove_invalid with
+      let xs := select fall (apply_scale xlog xf xlf) in
+      let ys := select fall (apply_scale ylog yf ylf) in
+      match downsample_grid_req g false xs ys ds remove_invalid with
       | (Ok _ _ idx, g') =>
           let mask := scatter fall idx (zeros fall) in  (* mask[mids] = idx *)
           (Ok (select idx x) (select idx y) mask, g')
@@ -327,8 +362,14 @@ Definition axes_not_constant (a b : list fval) : bool :=
   negb (ptp (map fin_val (select good a)) =? 0)
   && negb (ptp (map fin_val (select good b)) =? 0).
 
+(* fewer than four valid points: the NaN cells are cast to 0 (nan_cast) *)
 Definition no_constant_axis (a b : list fval) (samples : Z) : bool :=
-  negb (grid_runs a b samples) || axes_not_constant a b.
+  negb (grid_runs a b samples) || axes_not_constant a b
+  || (count_true (good_mask a b) <? 4).
+
+(* is_bad (log x): NaN for negative and NaN arguments, -inf for 0, +inf for +inf *)
+Definition log_bad (x : fval) : bool :=
+  match x with Fin z => z <=? 0 | _ => true end.
 
 (* ---- interface used by the correspondence check (harness/c16.py) -------- *)
 Definition dec_fval (p : Z * Z) : fval :=
@@ -351,7 +392,8 @@ Definition tchoice (t : table) (g n k : Z) : list Z * Z :=
   (if g =? 0 then lookup n k t else [-2], 1).
 
 Definition enc_error (e : error) : list Z :=
-  match e with ErrValue => [1] | ErrIndex => [2] | ErrNegative => [3] end.
+  match e with ErrValue => [1] | ErrIndex => [2] | ErrNegative => [3]
+           | ErrOverflow => [5] end.
 (* results with more than 600 events are compared through digests *)
 Definition digest (l : list Z) : Z :=
   fold_left (fun h x => (h * 1000003 + x) mod 2305843009213693951) l 17.
@@ -381,15 +423,17 @@ Definition run_flat (case : Z * list (list (Z * Z)) * list Z * table) : list Z :
   let ch := tchoice t in
   let fv i := map dec_fval (nthl ls i) in
   let bv i := map dec_bool (nthl ls i) in
-  if kind =? 0 then
-    enc_result (fst (downsample_grid Z 0 ch 1 (fv 0%nat) (fv 1%nat) (nthp ps 0)
-                                     (negb (nthp ps 1 =? 0))))
+  let flag i := negb (nthp ps i =? 0) in
+  if kind =? 0 then      (* ps = [samples; remove_invalid; numpy scalar request] *)
+    enc_result (fst (downsample_grid_req Z 0 ch 1 (flag 2%nat) (fv 0%nat) (fv 1%nat)
+                                         (nthp ps 0) (flag 1%nat)))
   else if kind =? 1 then
-    enc_result (fst (downsample_rand Z 0 ch 1 (fv 0%nat) (nthp ps 0)
-                                     (negb (nthp ps 1 =? 0))))
+    enc_result (fst (downsample_rand_req Z 0 ch 1 (flag 2%nat) (fv 0%nat)
+                                         (nthp ps 0) (flag 1%nat)))
   else if kind =? 2 then
     enc_mask (fst (filter_all Z 0 ch 1 (bv 0%nat) (bv 1%nat) (bv 2%nat) (bv 3%nat)
-                              (negb (nthp ps 0 =? 0)) (nthp ps 1)))
-  else
+                              (flag 0%nat) (nthp ps 1)))
+  else                   (* ps = [downsample; remove_invalid; xlog; ylog] *)
     enc_result (fst (scatter_ds Z 0 ch 1 (fv 0%nat) (fv 1%nat) (fv 2%nat) (fv 3%nat)
-                                (bv 4%nat) (nthp ps 0) (negb (nthp ps 1 =? 0)))).
+                                (flag 2%nat) (flag 3%nat)
+                                (bv 4%nat) (nthp ps 0) (flag 1%nat))).
